@@ -41,6 +41,7 @@ BY_PROPERTY = {
             ('Mahotas.Proofs.PyBodyTiesC20b', ['Mahotas.pybody_colors_rgb2grey_eq_model', 'Mahotas.pybody_colors_rgb2grey_pixel',
                                                'Mahotas.pybody_colors_xyz2lab_pixel', 'Mahotas.pybody_colors_rgb2lab_eq_model',
                                                'Mahotas.pybody_colors_rgb2lab_pixel', 'Mahotas.pybody_colors_rgb2sepia_eq_model'])],
+    'C15': [('Mahotas.Proofs.PyBodyTiesC15', ['Mahotas.pybody_euler_euler_eq_model'])],
     'C17': [('Mahotas.Proofs.PyBodyTiesC17', ['Mahotas.pybody_convolve__wavelet_center_compute_eq_model',
                                               'Mahotas.pybody_convolve_wavelet_center_eq_model',
                                               'Mahotas.pybody_convolve_wavelet_decenter_eq_model'])],
